@@ -40,8 +40,11 @@ var _ plenccodec.Outputter = nopOut{}
 // hostileInput returns an arbitrary byte string of length <= maxDecodeLen, with
 // or without spare capacity behind it, and arms the totality obligations:
 // loop unwinding bound len+16 and an allocation budget linear in the length.
+// extraLen: targets with few paths per byte get one more byte of input.
+var extraLen int
+
 func hostileInput() []byte {
-	n := vrt.Choice("len", maxDecodeLen()+1)
+	n := vrt.Choice("len", maxDecodeLen()+extraLen+1)
 	tail := vrt.Choice("cap", 2) * 4
 	data := vrt.BytesTail("d", n, tail)
 	vrt.LoopBound(n + 16)
@@ -88,4 +91,46 @@ func describeTotal(p *plenc.Plenc, fresh func() interface{}) {
 	data := hostileInput()
 	vrt.Measure(func() { _ = d.Read(nopOut{}, data) })
 	vrt.Cover("returned")
+}
+
+// decodeTotalReused: the same obligations when the target already holds data
+// (slices with spare capacity, non-nil maps and pointers).
+func decodeTotalReused(p *plenc.Plenc, used func() interface{}) {
+	t0 := used()
+	if _, err := p.CodecForType(reflect.TypeOf(t0).Elem()); err != nil {
+		vrt.Assert("codec built", false)
+		return
+	}
+	data := hostileInput()
+	out := used()
+	vrt.Measure(func() { _ = p.Unmarshal(data, out) })
+	vrt.Cover("returned")
+}
+
+type reusedTarget struct {
+	A []int          `plenc:"1"`
+	B []string       `plenc:"2"`
+	C []float32      `plenc:"3"`
+	M map[string]int `plenc:"4"`
+	P *int           `plenc:"5"`
+}
+
+// H04r_ReusedStruct / H04r_ReusedSlices: hostile bytes into re-used targets.
+func H04r_ReusedStruct() {
+	decodeTotalReused(newPlenc(cfgDef), func() interface{} {
+		n := 7
+		return &reusedTarget{A: make([]int, 1, 8), B: make([]string, 2, 4), C: make([]float32, 0, 4), M: map[string]int{"k": 1}, P: &n}
+	})
+}
+
+func H04r_ReusedInts() {
+	extraLen = 1
+	decodeTotalReused(newPlenc(cfgDef), func() interface{} { s := make([]int, 1, 8); return &s })
+	extraLen = 0
+}
+
+func H04r_ReusedStrings() {
+	extraLen = 1
+	decodeTotalReused(newPlenc(cfgDef), func() interface{} { s := make([]string, 1, 4); return &s })
+	extraLen = 0
 }
